@@ -1,6 +1,6 @@
 (** C14 — origin re-announcements always refresh every receiver. *)
-From Coq Require Import List NArith.
-From MM Require Import Model.Flood Model.FloodPreFix Proofs.FloodPreFixProofs Proofs.FloodBase Proofs.FloodOnce Proofs.FloodSeq Proofs.FloodConv Generated.C14.
+From Coq Require Import List NArith Bool.
+From MM Require Import Model.Flood Model.FloodPreFix Proofs.FloodPreFixProofs Proofs.FloodBase Proofs.FloodOnce Proofs.FloodSeq Proofs.FloodConv Generated.C14 Generated.C15.
 Import ListNotations.
 Local Open Scope N_scope.
 
@@ -38,12 +38,14 @@ Print Assumptions C14_next_announcement_is_fresh.
     duplicates, other agents' announcements, local route changes, time passing
     -- in which the topology is stable and the announcement's seen-cache entry
     is not expired, until no copy of the announcement is in flight.  With hop
-    limits that do not cut the mesh (none, or at least the number of agents),
+    limits that do not cut the mesh (none, or at least K - 1 for K agents, the
+    longest possible path: the boundary max_hops = distance of the two ends of
+    a chain of max_hops + 1 agents is included),
     every agent connected to o has processed the announcement and holds o's
     presence and every route o advertises, at the announcement's sequence
     number and refreshed no earlier than the announcement. *)
 Theorem C14_announcement_refreshes_everyone : forall cf K ops0 o ns0 ops,
-  (forall n, limit_of cf n = 0 \/ N.of_nat K <= limit_of cf n) ->
+  (forall n, limit_of cf n = 0 \/ N.of_nat K <= limit_of cf n + 1) ->
   let s0 := run cf (init K) ops0 in
   get (st_nodes s0) o = Some ns0 ->
   let sq := ns_seq ns0 + 1 in
@@ -140,3 +142,22 @@ Theorem C14_source_facts :
 Proof. repeat split; reflexivity. Qed.
 End SourceFacts.
 Print Assumptions C14_source_facts.
+
+(** The convergence / refresh theorems depend on the exact hop-limit
+    comparisons of the code (a copy whose path has exactly max_hops hops is
+    accepted; the replay test looks at the path as sent): the same regenerated
+    facts as in C15, checked here as well. *)
+Section HopFacts.
+Import String.
+Local Open Scope string_scope.
+Theorem C14_hop_limit_facts :
+  gen_handle_hop_checks = "gt:return-false,ge:return-true" /\
+  gen_replay_hop_checks = "gt:continue" /\
+  gen_hop_checks_placed_before_store_and_before_flood = true /\
+  gen_replay_path_has_self_prepended = true /\
+  gen_max_hops_plumbed_into_flood_config = true /\
+  (forall lim len, over_limit lim len = ((0 <? lim)%N && (lim <? len)%N)%bool) /\
+  (forall lim len, at_limit lim len = ((0 <? lim)%N && (lim <=? len)%N)%bool).
+Proof. repeat split; reflexivity. Qed.
+End HopFacts.
+Print Assumptions C14_hop_limit_facts.
